@@ -120,6 +120,7 @@ package types
 //@   ensures result1 != nil ==> self.open == old(self.open)
 //@   ensures[C03.loaded-pinv] result1 == nil ==> PInv(result0)
 //@   ensures[assumed-headroom] result1 == nil ==> result0.NextSegmentID < 0xfffffffffffffff0
+//@        && (forall j int :: 0 <= j && j < len(result0.Segments) ==> result0.Segments[j].BaseIndex < 0xffffffffffffff00)
 
 // ---------------------------------------------------------------------------
 // SegmentWriter / SegmentReader as the WAL sees them. Ghost view of a tail
@@ -172,11 +173,14 @@ package types
 //@ -- a recovered tail serves [base, last]; it may be sealed already (the crash
 //@ -- or Close happened after the sealing append, before the rotation committed).
 //@ -- [assumed-C01]: every acknowledged entry is recovered, so a tail that was
-//@ -- head-truncated to MinIndex still reaches MinIndex
+//@ -- head-truncated to MinIndex still reaches MinIndex. [C03.sealed-nonempty]: an
+//@ -- index block is only written by an append, after at least one entry.
 //@ interface SegmentFiler.RecoverTail
 //@   assigns g_open
 //@   ensures result1 == nil ==> result0 != nil && result0.base == info.BaseIndex
 //@   ensures[assumed-C01] result1 == nil ==> (result0.last == 0 || result0.last >= info.MinIndex)
+//@   ensures[assumed-headroom] result1 == nil ==> result0.last < 0xffffffffffffff00
+//@   ensures[C03.sealed-nonempty] result1 == nil && result0.sealed ==> result0.last != 0
 //@ interface SegmentFiler.Open
 //@   assigns g_open
 //@   ensures result1 == nil ==> result0 != nil
